@@ -194,6 +194,9 @@ def run_check(prop, spec, tier, seed, replay=None):
             spec['post'](ctx)
         except HarnessFailure as e:
             col.harness_bugs.append('post-checker: %s' % e)
+        except Exception as e:     # a post-checker crash must not hide violations already found
+            import traceback
+            col.harness_bugs.append('post-checker crashed: %s\n%s' % (e, traceback.format_exc()[-1500:]))
 
     # ---- verdict
     new_viol, seen = [], set()
